@@ -1,6 +1,6 @@
 use crate::error::ContractError;
 use cosmwasm_std::{
-    coins, Addr, BankMsg, Empty, QuerierWrapper, Response, StdError, StdResult, Uint128,
+    coins, Addr, BankMsg, Empty, QuerierWrapper, Response, StdError, StdResult, Uint128, Uint256,
 };
 use provwasm_std::types::cosmos::base::v1beta1::Coin;
 use provwasm_std::types::provenance::attribute::v1::{Attribute, AttributeQuerier};
@@ -11,6 +11,31 @@ use rust_decimal::prelude::Zero;
 use rust_decimal::Decimal;
 use std::convert::TryFrom;
 use uuid::Uuid;
+
+/// Returns `rate * amount` rounded to the nearest whole unit, midpoint away from zero.
+///
+/// Computed as one exact integer quotient: a decimal product that does not fit 96 bits is
+/// silently re-scaled (digits dropped and rounded) before the final rounding, which for large
+/// amounts lands on the wrong side of the midpoint.
+pub fn calculate_fee_size(rate: Decimal, amount: Decimal) -> Result<u128, ContractError> {
+    let is_negative = |value: &Decimal| value.is_sign_negative() && !value.is_zero();
+    if is_negative(&rate) || is_negative(&amount) || !amount.fract().is_zero() {
+        return Err(ContractError::TotalOverflow);
+    }
+    let amount = Uint128::new(amount.trunc().mantissa().unsigned_abs());
+    let two = Uint256::from(2u8);
+    let divisor = Uint256::from(10u128.pow(rate.scale()));
+    let rounded = amount
+        .full_mul(rate.mantissa().unsigned_abs())
+        .checked_mul(two)
+        .and_then(|doubled| doubled.checked_add(divisor))
+        .map_err(|_| ContractError::TotalOverflow)?
+        .checked_div(divisor * two)
+        .map_err(|_| ContractError::TotalOverflow)?;
+    Uint128::try_from(rounded)
+        .map(|fee| fee.u128())
+        .map_err(|_| ContractError::TotalOverflow)
+}
 
 pub fn is_restricted_marker(querier: &QuerierWrapper, denom: String) -> bool {
     matches!(
